@@ -16,15 +16,15 @@ import (
 
 // FuncResult is the outcome of verifying one function.
 type FuncResult struct {
-	Key      string
-	Err      string // engine error (outside subset, spec error)
-	Obls     []*Obligation
-	Used     []string
-	Inlined  []string
-	Notes    []string
-	Secs     float64
+	Key         string
+	Err         string // engine error (outside subset, spec error)
+	Obls        []*Obligation
+	Used        []string
+	Inlined     []string
+	Notes       []string
+	Secs        float64
 	HasContract bool
-	script   *scriptParts
+	script      *scriptParts
 }
 
 type scriptParts struct {
